@@ -191,7 +191,8 @@ Record state := { md : meta; curfile : Z }.
 
 Definition md_commit (st : state) (new : meta) (tu f : Z) : state :=
   {| md := {| cur := cur new; snaps := snaps new; slog := slog new; last_seq := last_seq new;
-              last_updated := tu; retention := retention new; prevmax := prevmax new;
+              last_updated := Z.max tu (last_updated (md st) + 1);   (* commit: now_ms = max(now_ms, current.last_updated_ms + 1) *)
+              retention := retention new; prevmax := prevmax new;
               mlog := append_mlog (prevmax new) (mlog new) (last_updated (md st)) (curfile st) |};
      curfile := f |}.
 
